@@ -34,6 +34,39 @@ theorem C12_lines_packets (ls : List Bytes) (tail : Bytes)
     feedLines [] (ls.flatten ++ tail) = (tail, ls) := by
   rw [feedLines_eq_run, List.nil_append, runL_lines_append hl, runL_none (findNl_eq_none.2 ht)]; simp
 
+/-! ### the text clients with the reader's line limit (`readuntil` + the client's overrun handling, `feedLim`) -/
+
+/-- **Refinement**: the buffer-based receive loop (`readuntil` with its limit, the client's `readexactly(e.consumed)` and its
+in-overlong-line flag) hands the decoder exactly the lines the byte-at-a-time automaton emits, for every chunk of data from every pair of
+related stable states, and ends in related stable states -/
+theorem C12_lim_refines (limit : Nat) (s a : LState) (data : Bytes) (hr : Rel s a) (hs : Stable limit s) (ha : Stable limit a) :
+    (feedLim limit s data).2 = (autoRun limit a data).2 ∧
+    Rel (feedLim limit s data).1 (autoRun limit a data).1 ∧
+    Stable limit (feedLim limit s data).1 ∧ Stable limit (autoRun limit a data).1 :=
+  feedLim_refines limit s a data hr hs ha
+
+/-- **Segmentation independence with the limit**: however the transport splits the stream into reads, the lines handed to the decoder are
+the lines the automaton emits for the whole stream — in particular the same for every segmentation -/
+theorem C12_lim_chunking (limit : Nat) (reads : List Bytes) :
+    (feedAllLim limit {} reads).2 = (autoRun limit {} reads.flatten).2 :=
+  feedAllLim_auto limit reads
+
+theorem C12_lim_chunking' (limit : Nat) (reads reads' : List Bytes) (h : reads.flatten = reads'.flatten) :
+    (feedAllLim limit {} reads).2 = (feedAllLim limit {} reads').2 := by
+  rw [C12_lim_chunking, C12_lim_chunking, h]
+
+/-- … and these are exactly the stream's newline-terminated lines whose body is not longer than the limit: an overlong line is dropped
+whole — also the part of it that arrives later — and costs no other line -/
+theorem C12_lim_packets (limit : Nat) (ls : List Bytes) (tail : Bytes)
+    (hl : ∀ l ∈ ls, ∃ body, l = body ++ [10] ∧ 10 ∉ body) (ht : 10 ∉ tail) :
+    (autoRun limit {} (ls.flatten ++ tail)).2 = ls.filter (fun l => l.length ≤ limit + 1) :=
+  autoRun_lines limit ls tail hl ht
+
+-- non-vacuity: limit 3; "abcdefg\nhi\n" in one read and cut inside the overlong line
+example : (feedAllLim 3 {} [[97, 98, 99, 100, 101, 102, 103, 10, 104, 105, 10]]).2 = [[104, 105, 10]] := by decide
+example : (feedAllLim 3 {} [[97, 98, 99, 100, 101], [102, 103, 10, 104, 105, 10]]).2 = [[104, 105, 10]] := by decide
+example : (feedAllLim 3 {} [[97, 98], [99, 10, 104, 105, 10]]).2 = [[97, 98, 99, 10], [104, 105, 10]] := by decide
+
 end N2k.Reader
 
 namespace N2k.Client
